@@ -108,7 +108,9 @@ PROPS = {
         "rule": "random trees (depth 1-2 quick, 1-4 thorough) in which every nested Stack and every Condition (also as a Condition's expression) is independently "
                 "native / alias / alias with its own String / non-nil pointer to alias; the alias tree and its all-native twin are both built with the real code and "
                 "observed: String, Unmarshal, IsNesting, Traverse over 9 paths, Condition.Len/IsNesting, no-nesting Push count, Transfer, IsEqual in both directions, "
-                "ConvertStack/ConvertCondition per element; the two observations must coincide and equal the model's",
+                "ConvertStack/ConvertCondition per element; the two observations must coincide and equal the model's; about one nested Stack, nested Condition and "
+                "Condition-held Stack in six carries an Unmarshaler (ids 1-3, id 3 returns an error too), never the receiver: Unmarshal is observed with its error class "
+                "against the closure-aware walk (C12_unmarshalP)",
         "modelled": COMMON_MODELLED,
         "assumptions": ["IsEqual across forms (C12_isEqual*): user EqualityPolicy closures are form-blind (HookBlind: hook p (erase a) (erase b) = hook p a b), "
                         "or no EqualityPolicy is installed in the receiver's tree (C12_isEqual_noPolicy); no hypothesis on []any leaves; "
@@ -128,7 +130,8 @@ PROPS = {
                 "without capacity; content and Err() class compared after every step; stream closures: install / replace / remove sequences (by value, nil, and the "
                 "argument-less variadic form) of validity, presentation, equality, marshal and unmarshal closures on Stacks of every kind (also case-folded, BASIC) and on "
                 "Conditions; after every call Valid (error or not, and whose), String, IsEqual against an equal copy and against a different value, Unmarshal, Err; Marshal "
-                "as an operation",
+                "as an operation; a third of the Stack receivers hold a nested Stack / Condition / Condition-held Stack (any form) with an Unmarshaler of its own, a "
+                "quarter of the Condition receivers a Stack expression with one (C14_unmarshal_nested_*)",
         "modelled": COMMON_MODELLED,
         "assumptions": ["policies are pure functions of the offered value"],
     },
